@@ -387,11 +387,30 @@ func (s StateSet) List() []int {
 // Flow is a forward dataflow problem on one function. The lattice is the
 // powerset of at most 64 abstract states; the result is path-universal
 // (every state that some CFG path can produce is in the set).
+//
+// If Inline is set, a plain call (not go/defer) of a function for which
+// Inline returns true is analysed with the same Transfer/Branch starting from
+// the state before the call; the states at its normal returns become the
+// states after the call (a functional summary per (callee, entry state),
+// memoised; recursion is cut). Before/After of the callee's instructions are
+// recorded in the same result, joined over all calling contexts. This makes a
+// typestate rule indifferent to statements having been extracted into helper
+// functions.
 type Flow struct {
 	Fn       *ssa.Function
 	Entry    StateSet
 	Transfer func(in ssa.Instruction, s int) StateSet                    // states after in when in state s before; nil = identity
 	Branch   func(iff *ssa.If, succ int, s int) (ns int, feasible bool) // optional refinement on the succ-th edge (0=true,1=false)
+	Inline   func(callee *ssa.Function) bool
+
+	memo  map[flowKey]StateSet
+	stack map[*ssa.Function]bool
+	res   *FlowResult
+}
+
+type flowKey struct {
+	fn *ssa.Function
+	s  int
 }
 
 // FlowResult holds the state set before each instruction and at block entry.
@@ -399,34 +418,72 @@ type FlowResult struct {
 	In     map[*ssa.BasicBlock]StateSet
 	Before map[ssa.Instruction]StateSet
 	After  map[ssa.Instruction]StateSet
+	// Exit is the join of the states at the normal returns of the root function.
+	Exit StateSet
 }
 
 func (f *Flow) Run() *FlowResult {
-	res := &FlowResult{In: map[*ssa.BasicBlock]StateSet{}, Before: map[ssa.Instruction]StateSet{}, After: map[ssa.Instruction]StateSet{}}
-	if len(f.Fn.Blocks) == 0 {
-		return res
+	f.res = &FlowResult{In: map[*ssa.BasicBlock]StateSet{}, Before: map[ssa.Instruction]StateSet{}, After: map[ssa.Instruction]StateSet{}}
+	f.memo = map[flowKey]StateSet{}
+	f.stack = map[*ssa.Function]bool{}
+	f.res.Exit = f.runFn(f.Fn, f.Entry, 0)
+	return f.res
+}
+
+// runFn analyses fn from the given entry states and returns the join of the
+// states at its normal returns.
+func (f *Flow) runFn(fn *ssa.Function, entry StateSet, depth int) StateSet {
+	res := f.res
+	if len(fn.Blocks) == 0 {
+		return entry
 	}
-	res.In[f.Fn.Blocks[0]] = f.Entry
-	work := []*ssa.BasicBlock{f.Fn.Blocks[0]}
-	inWork := map[*ssa.BasicBlock]bool{f.Fn.Blocks[0]: true}
-	// The recover block (if any) is entered with the join of all states.
+	in := map[*ssa.BasicBlock]StateSet{fn.Blocks[0]: entry}
+	work := []*ssa.BasicBlock{fn.Blocks[0]}
+	inWork := map[*ssa.BasicBlock]bool{fn.Blocks[0]: true}
+	var exit StateSet
 	for len(work) > 0 {
 		b := work[0]
 		work = work[1:]
 		inWork[b] = false
-		cur := res.In[b]
-		for _, in := range b.Instrs {
-			res.Before[in] |= cur
+		cur := in[b]
+		for _, ins := range b.Instrs {
+			res.Before[ins] |= cur
 			var nxt StateSet
 			if f.Transfer == nil {
 				nxt = cur
 			} else {
 				for _, s := range cur.List() {
-					nxt |= f.Transfer(in, s)
+					nxt |= f.Transfer(ins, s)
 				}
 			}
-			res.After[in] |= nxt
+			if f.Inline != nil && depth < 8 {
+				if c, ok := ins.(*ssa.Call); ok {
+					if cal := c.Common().StaticCallee(); cal != nil && len(cal.Blocks) > 0 && !f.stack[cal] && cal != fn && f.Inline(cal) {
+						var out StateSet
+						for _, s := range nxt.List() {
+							k := flowKey{cal, s}
+							if v, ok := f.memo[k]; ok {
+								out |= v
+								continue
+							}
+							f.stack[fn] = true
+							v := f.runFn(cal, StateSet(0).Add(s), depth+1)
+							f.stack[fn] = false
+							f.memo[k] = v
+							out |= v
+						}
+						nxt = out
+					}
+				}
+			}
+			res.After[ins] |= nxt
 			cur = nxt
+			if r, ok := ins.(*ssa.Return); ok {
+				if !(fn.Recover != nil && r.Block() == fn.Recover) {
+					exit |= res.Before[ins] & cur
+					exit |= cur
+				}
+			}
 		}
 		var iff *ssa.If
 		if len(b.Instrs) > 0 {
@@ -442,9 +499,9 @@ func (f *Flow) Run() *FlowResult {
 					}
 				}
 			}
-			old := res.In[sc]
+			old := in[sc]
 			if old|out != old {
-				res.In[sc] = old | out
+				in[sc] = old | out
 				if !inWork[sc] {
 					inWork[sc] = true
 					work = append(work, sc)
@@ -452,7 +509,10 @@ func (f *Flow) Run() *FlowResult {
 			}
 		}
 	}
-	return res
+	for b, s := range in {
+		res.In[b] |= s
+	}
+	return exit
 }
 
 // ---- conditions ------------------------------------------------------------
@@ -468,13 +528,81 @@ type CondInfo struct {
 	Negate bool // condition is the negation of the described predicate
 }
 
-// Cond analyses the condition of an If.
-func Cond(v ssa.Value) CondInfo {
+// Resolver looks through calls of small expression helpers: a static call of
+// a function with a body and exactly one return is replaced by the returned
+// expression, with the callee's parameters bound to the call's arguments. It
+// lets condition and value recognisers see through `isStarted()`-style
+// helpers a refactoring may introduce.
+type Resolver struct {
+	Env map[*ssa.Parameter]ssa.Value
+}
+
+func NewResolver() *Resolver { return &Resolver{Env: map[*ssa.Parameter]ssa.Value{}} }
+
+// Bind binds the parameters of the callee of c to the (resolved) arguments.
+func (r *Resolver) Bind(c ssa.CallInstruction) {
+	cal := c.Common().StaticCallee()
+	if cal == nil {
+		return
+	}
+	for i, prm := range cal.Params {
+		if i < len(c.Common().Args) {
+			r.Env[prm] = r.R(c.Common().Args[i])
+		}
+	}
+}
+
+func singleReturn(fn *ssa.Function) *ssa.Return {
+	var ret *ssa.Return
+	for _, x := range Returns(fn) {
+		if fn.Recover != nil && x.Block() == fn.Recover {
+			continue
+		}
+		if ret != nil {
+			return nil
+		}
+		ret = x
+	}
+	return ret
+}
+
+// R resolves v: parameters bound in the environment are replaced by their
+// arguments, calls of single-return helpers of the analysed module by their
+// returned expression.
+func (r *Resolver) R(v ssa.Value) ssa.Value {
+	for i := 0; i < 12; i++ {
+		switch x := v.(type) {
+		case *ssa.Parameter:
+			if a, ok := r.Env[x]; ok && a != v {
+				v = a
+				continue
+			}
+		case *ssa.Call:
+			cal := x.Common().StaticCallee()
+			if cal != nil && len(cal.Blocks) > 0 && len(cal.Blocks) <= 6 && cal.Pkg != nil && strings.HasPrefix(cal.Pkg.Pkg.Path(), ModPath) && cal.Signature.Results().Len() == 1 {
+				if ret := singleReturn(cal); ret != nil {
+					r.Bind(x)
+					v = ret.Results[0]
+					continue
+				}
+			}
+		}
+		return v
+	}
+	return v
+}
+
+// Cond analyses the condition of an If (looking through expression helpers).
+func Cond(v ssa.Value) CondInfo { return CondWith(v, NewResolver()) }
+
+// CondWith analyses a condition with the given resolver (environment).
+func CondWith(v ssa.Value, rs *Resolver) CondInfo {
 	neg := false
+	v = rs.R(v)
 	for {
 		if u, ok := v.(*ssa.UnOp); ok && u.Op == token.NOT {
 			neg = !neg
-			v = u.X
+			v = rs.R(u.X)
 			continue
 		}
 		break
@@ -487,7 +615,7 @@ func Cond(v ssa.Value) CondInfo {
 		}
 	}
 	if b, ok := v.(*ssa.BinOp); ok {
-		x, y := b.X, b.Y
+		x, y := rs.R(b.X), rs.R(b.Y)
 		op := b.Op
 		if _, ok := x.(*ssa.Const); ok {
 			x, y = y, x
@@ -518,9 +646,20 @@ func Cond(v ssa.Value) CondInfo {
 			if call, ok := x.(*ssa.Call); ok {
 				if bi, ok := call.Call.Value.(*ssa.Builtin); ok && bi.Name() == "len" {
 					ci.Kind = "lencmp"
-					ci.X = Strip(call.Call.Args[0])
-					if f, ok := LoadedField(call.Call.Args[0]); ok {
+					arg := rs.R(call.Call.Args[0])
+					ci.X = Strip(arg)
+					ci.HasFld = false
+					if f, ok := LoadedField(arg); ok {
 						ci.Field, ci.HasFld = f, true
+					}
+					// canonicalise comparisons of a length (>= 0) with 0/1
+					if k, ok := constant.Int64Val(c.Value); ok && c.Value.Kind() == constant.Int {
+						switch {
+						case op == token.LSS && k == 1, op == token.LEQ && k == 0:
+							ci.Op, ci.Const = token.EQL, constant.MakeInt64(0)
+						case op == token.GEQ && k == 1, op == token.GTR && k == 0:
+							ci.Op, ci.Const = token.NEQ, constant.MakeInt64(0)
+						}
 					}
 				}
 			}
